@@ -80,7 +80,7 @@ async def explore(pid, tier, seed, m):
         for q in overlapping_abstract_spreads(sg, rng): docs.append(("legal-unusual", q, None, None))
         if pid == "C07":
             for q in impossible_reuse(sg, rng): docs.append(("spread-impossible-reuse", q, None, None))
-        for intent, q in subscription_violations(sg, rng): docs.append((intent, q, "B" if "subscription B" in q else None, None))
+        for intent, q in subscription_violations(sg, rng): docs.append((intent, q, "B" if "subscription B" in q else ("Qm" if "query Qm" in q else None), None))
         for intent, q, opn, variables in docs:
             try:
                 doc = er.parse_doc(q)
